@@ -145,6 +145,8 @@ pub struct QFields {
     pub date: Field,
     pub ip: Field,
     pub s: Field,
+    /// u64 fast field, multi-valued: the value of `num`, and for every third value a second one (num + 1) after it
+    pub mnum: Field,
 }
 pub fn q_schema() -> (Schema, QFields) {
     let mut sb = Schema::builder();
@@ -157,7 +159,8 @@ pub fn q_schema() -> (Schema, QFields) {
     let date = sb.add_date_field("date", FAST | INDEXED);
     let ip = sb.add_ip_addr_field("ip", FAST | INDEXED);
     let s = sb.add_text_field("s", STRING | FAST);
-    (sb.build(), QFields { uid, body, tag, num, inum, fnum, date, ip, s })
+    let mnum = sb.add_u64_field("mnum", FAST);
+    (sb.build(), QFields { uid, body, tag, num, inum, fnum, date, ip, s, mnum })
 }
 
 /// The materialised corpus: model documents (with uid) and liveness.
@@ -189,6 +192,10 @@ pub fn to_doc(uid: u64, d: &QDoc, f: &QFields) -> TantivyDocument {
     }
     if let Some(n) = d.num {
         t.add_u64(f.num, n as u64);
+        t.add_u64(f.mnum, n as u64);
+        if n % 3 == 0 {
+            t.add_u64(f.mnum, n as u64 + 1);
+        }
     }
     if let Some(n) = d.inum {
         t.add_i64(f.inum, n as i64);
